@@ -150,7 +150,37 @@ func Validate(r *Row, d Desc, enc []byte, lines []*AsmLine) string {
 			} else if !ok && !sdwaFieldUnused(r, name) {
 				s = fmt.Sprintf("MISMATCH:%s missing in %q", name, al.Text)
 			}
-		case "imm", "soe":
+		case "op_sel", "neg", "neg_hi":
+			if d.Fmt == "VOP3P" {
+				key := map[string]string{"op_sel": "op_sel", "neg": "neg_lo", "neg_hi": "neg_hi"}[name]
+				got, ok := listMod(al.Mods[key])
+				if !ok || got != e.Mods[name] {
+					s = fmt.Sprintf("MISMATCH:%s=%d but text %q", name, e.Mods[name], al.Text)
+				}
+			}
+		case "op_sel_hi":
+			want := e.Mods["op_sel_hi"] | e.Mods["op_sel_hi2"]<<2
+			got := uint32(7)
+			if t, present := al.Mods["op_sel_hi"]; present {
+				var ok bool
+				got, ok = listMod(t)
+				if !ok {
+					s = "MISMATCH:op_sel_hi syntax " + t
+				}
+			}
+			nsrc := uint32(0)
+			for _, o := range r.Operands {
+				if _, isSrc := srcIndex[o.Field]; isSrc {
+					nsrc++
+				}
+			}
+			mask := uint32(1)<<nsrc - 1
+			if s == "" && got&mask != want&mask {
+				s = fmt.Sprintf("MISMATCH:op_sel_hi=%d but text %q", want, al.Text)
+			} else if want&^mask != 0 && nsrc < 3 && want&^mask != 7&^mask {
+				s = "reject:op_sel_hi bits of an absent source"
+			}
+		case "imm", "soe", "op_sel_hi2":
 			// visible through the operand form
 		}
 		if s != "" {
@@ -168,4 +198,25 @@ func sdwaFieldUnused(r *Row, name string) bool {
 		return r.Operand("vsrc1") == nil
 	}
 	return false
+}
+
+// listMod parses "[1,0,1]" into bits (element i = bit i); "" = 0.
+func listMod(t string) (uint32, bool) {
+	if t == "" {
+		return 0, true
+	}
+	if !strings.HasPrefix(t, "[") || !strings.HasSuffix(t, "]") {
+		return 0, false
+	}
+	var v uint32
+	for i, p := range strings.Split(t[1:len(t)-1], ",") {
+		switch strings.TrimSpace(p) {
+		case "1":
+			v |= 1 << uint(i)
+		case "0":
+		default:
+			return 0, false
+		}
+	}
+	return v, true
 }
